@@ -10,3 +10,5 @@ from . import construct  # noqa: F401
 from . import graph  # noqa: F401
 from . import signature  # noqa: F401
 from . import specparser  # noqa: F401
+from . import diagram  # noqa: F401
+from . import pickling  # noqa: F401
